@@ -520,6 +520,8 @@ func (c *core) commit(block *hg.Block) error {
 				return err
 			}
 			c.selfBlockSignatures.Add(sig)
+		} else if err := c.hg.Store.SetBlock(block); err != nil {
+			return err
 		}
 
 		err = c.hg.SetAnchorBlock(block)
